@@ -10,6 +10,11 @@ Per run:
   3. library layer: cmd.LoadGleeceConfig in-process on every subset of optional fields
      (modulo containment), every single-field corruption, cross-field malformed schemes
      (`implrun loadconfig`) against `validate` and `prop_C20_load`;
+  3b. history layer: SEQUENCES of configurations loaded in ONE process ([explicit optional
+     fields ..., a document omitting them], refused documents in between): every value
+     cmd.LoadGleeceConfig returns, right after its call and again after the rest of the history,
+     against `ConfigLoad.load1` / `prop_C20_loads` (the value says what ITS document says, defaults
+     included), and the last one against a fresh process;
   4. CLI layer: the real binary in scratch projects under _work/C20 (engines x versions,
      permission strings x fresh/existing files, commands, glob sets with decoys, output
      paths, package names, corruptions on a project whose sources do not parse) against
@@ -831,6 +836,184 @@ def run_lib(cases, oracle, rng, tag="lib"):
     return texts, verdicts, disagree, propfail, bad
 
 
+# ------------------------------------------------------------------ history layer (several loads, one process)
+
+SEQ_EVAL = """
+From Gleece Require Import Model.ConfigLoad.
+Definition L d v x y : load_obs := {| lo_doc := d; lo_verdict := v; lo_value := x; lo_after := y |}.
+Definition scases : list (nat * load_obs) := %(cases)s.
+Definition sdisagree := Eval vm_compute in
+  map fst (filter (fun c => negb (load_agrees orc config_schema (snd c))) scases).
+Definition spropfail := Eval vm_compute in map fst (filter (fun c => negb (load_ok (snd c))) scases).
+Definition svalid := Eval vm_compute in
+  [List.length (filter (fun c => match lo_verdict (snd c) with Valid => true | _ => false end) scases)].
+Print sdisagree.
+Print spropfail.
+Print svalid.
+Print enum_breakers.
+"""
+
+GLOB_POOL = [
+    ["./ctl/main.controller.go", "./ctl/decoy.controller.go"],
+    ["./ctl/m*.go", "./extra/*.go"],
+    ["./ctl/admin.go", "./ctl/decoy.controller.go", "./ctl/main.controller.go"],
+    ["./ctl/sub/*.go", "./ctl/a*.go", "./extra/*.go", "./ctl/main.controller.go"],
+    ["./extra/*.go", "./ctl/sub/*.go"],
+    ["./ctl/main.controller.go"],
+    ["./ctl/*.go"],
+    ["./nomatch/*.go", "./ctl/admin.go"],
+]
+
+
+def explicit_config(rng, k):
+    """A configuration with EVERY optional part present and its values varied with k (so that two
+    explicit documents of one history differ in every optional field)."""
+    c = config_with(closed_subset(OPT_NAMES))
+    c["commonConfig"]["controllerGlobs"] = list(GLOB_POOL[k % len(GLOB_POOL)])
+    c[RC]["engine"], c[OC]["openapi"] = ENGINES[k % 5], VERSIONS[k % 2]
+    c[RC]["packageName"] = ["myroutes", "api_v2", "gen", "handlers"][k % 4]
+    c[RC]["outputFilePerms"] = ["0600", "0640", "644", "0755"][k % 4]
+    c[RC]["outputPath"] = "./out%d/routes.go" % k
+    c[RC]["authorizationConfig"]["enforceSecurityOnAllRoutes"] = True
+    c[RC]["templateOverrides"] = {"Imports": "./tpl/imports%d.hbs" % k, "RunValidator": "./tpl/rv.hbs"}
+    c[RC]["templateExtensions"] = {"ImportsExtension": "./tpl/ext%d.hbs" % k}
+    info = c[OC]["info"]
+    info["description"] += " #%d" % k
+    info["termsOfService"] = "https://example.com/terms/%d" % k
+    info["contact"]["name"] = "Support %d" % k
+    info["license"]["name"] = ["Apache 2.0", "MIT", "BSD-3"][k % 3]
+    order = list(range(len(SCHEMES)))
+    rng.shuffle(order)
+    picked = sorted(order[:rng.randint(2, len(SCHEMES))]) if k % 2 else order[:rng.randint(2, len(SCHEMES))]
+    c[OC]["securitySchemes"] = [copy.deepcopy(SCHEMES[i]) for i in picked]
+    c[OC]["defaultSecurity"] = {"name": c[OC]["securitySchemes"][-1]["name"], "scopes": ["read", "write", "s%d" % k][:1 + k % 3]}
+    c[OC]["specGeneratorConfig"]["outputPath"] = "./out%d/openapi.json" % k
+    return c
+
+
+def omitting_config(rng, omitted, k):
+    c = config_with(closed_subset([x for x in OPT_NAMES if x not in omitted]))
+    c[RC]["engine"], c[OC]["openapi"] = ENGINES[(k + 2) % 5], VERSIONS[(k + 1) % 2]
+    return c
+
+
+def seq_cases(rng, tier):
+    """Histories (lists of (class, cfg)) loaded in one process.  The property quantifies over every
+    subset of optional fields; a process may load any number of configurations (library use, a
+    test binary, a watch loop): the accepted value of each must be ITS document's."""
+    hs = []
+    k = 0
+    for n, _, _ in OPTIONAL:
+        # explicit, then the document without this one part
+        hs.append([("seq:explicit", explicit_config(rng, k)), ("seq:omit:" + n, omitting_config(rng, {n}, k))])
+        # two explicit documents (different values, lists of different lengths), then the omission
+        hs.append([("seq:explicit", explicit_config(rng, k + 1)), ("seq:explicit", explicit_config(rng, k + 3)),
+                   ("seq:omit:" + n, omitting_config(rng, {n}, k + 1))])
+        k += 1
+    for g in range(len(GLOB_POOL)):
+        # every list length before: the minimal document, the empty list, the explicit default
+        last = [omitting_config(rng, set(OPT_NAMES), g), config_with(closed_subset(OPT_NAMES)), config_with(closed_subset(OPT_NAMES))][g % 3]
+        if g % 3 == 1:
+            last["commonConfig"]["controllerGlobs"] = []
+        if g % 3 == 2:
+            last["commonConfig"]["controllerGlobs"] = ["./ctl/sub/*.go"]
+        hs.append([("seq:explicit", explicit_config(rng, g)), ("seq:" + ["minimal", "empty-globs", "shorter-globs"][g % 3], last)])
+    # a refused document between the explicit one and the omission (a refusal leaves nothing behind either)
+    for j, (cls, needs, mut, values) in enumerate(CORRUPTIONS[::5] if tier == "quick" else CORRUPTIONS):
+        bad = explicit_config(rng, j + 2)
+        try:
+            mut(bad, values[j % len(values)])
+        except (KeyError, TypeError, IndexError):
+            continue
+        om = rng.sample(OPT_NAMES, rng.randint(1, 5))
+        hs.append([("seq:explicit", explicit_config(rng, j)), ("seq:corrupt:" + cls, bad),
+                   ("seq:omit:" + "+".join(sorted(om)), omitting_config(rng, set(om), j))])
+    # random histories: explicit / omitting documents in any order, the same document twice
+    for _ in range(12 if tier == "quick" else 150):
+        h = []
+        for _ in range(rng.randint(2, 4)):
+            if rng.random() < 0.5:
+                h.append(("seq:explicit", explicit_config(rng, rng.randrange(40))))
+            else:
+                om = [x for x in OPT_NAMES if rng.random() < 0.4]
+                h.append(("seq:omit:" + "+".join(sorted(om)), omitting_config(rng, set(om), rng.randrange(40))))
+        if rng.random() < 0.3:
+            h.append(h[0])
+        hs.append(h)
+    return hs
+
+
+def run_seq(hists, oracle, rng, tag="seq", fresh=True):
+    """Load every history in its own process; judge every load in Coq.  Returns per history the
+    texts and results, the flat ids (history, position) that disagree with the model / fail the
+    oracle, and the histories whose last document a fresh process answers differently."""
+    texts = [[render(c, rng, "json5" if ((hi + i) % 3 == 0 and isinstance(c, dict)) else "json") for i, (_, c) in enumerate(h)]
+             for hi, h in enumerate(hists)]
+
+    def one(ts):
+        return implrun("loadconfig", {"cwd": oracle.cwd, "configs": ts[1], "name": ".c20seq%d.json" % ts[0]}, timeout=600)
+    with concurrent.futures.ThreadPoolExecutor(max_workers=8) as ex:
+        results = list(ex.map(one, [(hi, ts) for hi, ts in enumerate(texts)]))
+        fresh_res = list(ex.map(one, [(len(hists) + hi, [ts[-1]]) for hi, ts in enumerate(texts)])) if fresh else []
+    oracle.ensure([c for h in hists for _, c in h])
+    flat = [(hi, i) for hi, h in enumerate(hists) for i in range(len(h))]
+
+    def val(raw):
+        return "None" if raw is None else "(Some %s)" % coq_jv(raw)
+    INTERN.reset()
+    rows = []
+    for n, (hi, i) in enumerate(flat):
+        r = results[hi][i]
+        if r.get("error", "").startswith(("PANIC", "MARSHAL")):
+            raise RuntimeError("loadconfig: %s" % r["error"])
+        v = verdict_of_error(r["ok"], r["error"])
+        rows.append("(%d, L %s %s %s %s)" % (n, coq_jv(hists[hi][i][1]), coq_verdict(v), val(r.get("config")), val(r.get("after"))))
+    otext = oracle.coq()
+    body = CASE_HEADER % dict(otable=otext, files="[]", defs=INTERN.defs()) + SEQ_EVAL % dict(cases="[\n " + ";\n ".join(rows) + "\n]")
+    out = run_coq_file(PROP, tag, body)
+    ENUM_BREAKERS.update(oracle.breakers(out))
+    dis = [flat[n] for n in parse_nat_list(out, "sdisagree")]
+    pf = [flat[n] for n in parse_nat_list(out, "spropfail")]
+    nvalid = parse_nat_list(out, "svalid")[0]
+    differs = []
+    for hi, fr in enumerate(fresh_res):
+        a_, b_ = results[hi][-1], fr[0]
+        if (a_["ok"], a_.get("config"), a_.get("after")) != (b_["ok"], b_.get("config"), b_.get("config")) \
+                or verdict_of_error(a_["ok"], a_["error"]) != verdict_of_error(b_["ok"], b_["error"]):
+            differs.append(hi)
+    return dict(texts=texts, results=results, fresh=fresh_res, disagree=dis, propfail=pf, differs=differs, valid=nvalid,
+                loads=len(flat))
+
+
+def seq_input(h, texts):
+    return {"sequence": [{"class": cls, "config": c, "config_text": tx} for (cls, c), tx in zip(h, texts)],
+            "layer": "cmd.LoadGleeceConfig, all documents loaded one after the other in ONE process"}
+
+
+def seq_output(results):
+    return [{"ok": r["ok"], "error": r["error"][-300:], "value": r.get("config"), "value_after_history": r.get("after")} for r in results]
+
+
+def shrink_seq(h, pos, oracle, rng):
+    """Drop documents before/after the failing one while the history still fails the oracle."""
+    cur, p = list(h), pos
+    changed = True
+    n = 0
+    while changed and len(cur) > 1 and n < 8:
+        changed = False
+        for j in range(len(cur)):
+            if j == p:
+                continue
+            cand = cur[:j] + cur[j + 1:]
+            n += 1
+            r = run_seq([cand], oracle, rng, "seqshrink", fresh=False)
+            if r["propfail"]:
+                cur, p, changed = cand, r["propfail"][0][1], True
+                break
+    r = run_seq([cur], oracle, rng, "seqshrunk")
+    return cur, r
+
+
 # ------------------------------------------------------------------ CLI layer
 
 def snapshot(d):
@@ -1285,6 +1468,22 @@ def main():
     known_hits = {}
 
     # ---- replay of a stored input
+    if a.replay and "sequence" in json.load(open(a.replay)).get("input", {}):
+        rp = json.load(open(a.replay))
+        h = [(x.get("class", "replay"), x["config"]) for x in rp["input"]["sequence"]]
+        r = run_seq([h], oracle, rng, "seqreplay")
+        if r["propfail"] or r["differs"]:
+            res.violation({"kind": "property-fails-on-implementation", "input": seq_input(h, r["texts"][0]),
+                           "implementation_output": {"loads": seq_output(r["results"][0]),
+                                                     "fresh_process_last": seq_output(r["fresh"][0])},
+                           "failing_positions": [p_ for _, p_ in r["propfail"]]})
+        elif r["disagree"]:
+            res.violation({"kind": "correspondence", "obligation": "corr:ConfigLoad.load1", "input": seq_input(h, r["texts"][0]),
+                           "implementation_output": {"loads": seq_output(r["results"][0])}}, no_input=True)
+        res.coverage.update({"evaluations": len(h), "distinct_nontrivial": len(h), "rule": "replay of one stored history of loads",
+                             "samples": [seq_input(h, r["texts"][0])], "input_distribution": {"replay": 1}})
+        shutil.rmtree(W, ignore_errors=True)
+        sys.exit(res.finish())
     if a.replay:
         rp = json.load(open(a.replay))
         # absolute output paths of the stored case point into its (removed) run directory
@@ -1325,6 +1524,31 @@ def main():
             res.known(f_, "cmd.LoadGleeceConfig accepts a security scheme that is malformed across fields")
         else:
             lib_viol.append(i)
+
+    # ---- history layer: several loads in one process
+    t0 = time.time()
+    shists = seq_cases(random.Random(seed + 20), a.tier)
+    sq = run_seq(shists, oracle, rng)
+    timings["history_layer_s"] = round(time.time() - t0, 1)
+    seq_bad = sorted({hi for hi, _ in sq["propfail"]} | set(sq["differs"]))
+    for hi in seq_bad[:2]:
+        pos = [p_ for h_, p_ in sq["propfail"] if h_ == hi]
+        h, r = shists[hi], None
+        if pos:
+            h, r = shrink_seq(shists[hi], pos[0], oracle, rng)
+            if not r["propfail"]:
+                h, r = shists[hi], None
+        if r is None:
+            r = {"texts": [sq["texts"][hi]], "results": [sq["results"][hi]], "fresh": [sq["fresh"][hi]],
+                 "propfail": [(0, p_) for p_ in pos], "differs": [0] if hi in sq["differs"] else []}
+        res.violation({"kind": "property-fails-on-implementation", "input": seq_input(h, r["texts"][0]),
+                       "implementation_output": {"loads": seq_output(r["results"][0]),
+                                                 "fresh_process_last": seq_output(r["fresh"][0]) if r["fresh"] else None},
+                       "failing_positions": [p_ for _, p_ in r["propfail"]],
+                       "last_differs_from_fresh_process": bool(r["differs"]),
+                       "claim": "prop_C20_loads: the value cmd.LoadGleeceConfig returns for an accepted document says what THAT document "
+                                "says (zero value = absent, defaults: all Go files / package routes) and nothing else, right after the "
+                                "call and after every later load of the process; it is what a fresh process returns"})
 
     # ---- CLI layer
     t0 = time.time()
@@ -1416,6 +1640,11 @@ def main():
                        "claim": "prop_C20_load: a document violating the declared schema is refused and every violated field is named"})
 
     unexplained_dis = [i for i in cdis if i not in cpf]
+    if not res.violations and sq["disagree"]:
+        hi, p_ = sq["disagree"][0]
+        res.violation({"kind": "correspondence", "obligation": "corr:ConfigLoad.load1@history %d load %d" % (hi, p_),
+                       "input": seq_input(shists[hi], sq["texts"][hi]),
+                       "implementation_output": {"loads": seq_output(sq["results"][hi])}}, no_input=True)
     if not res.violations and (not obligation or unexplained_dis or ldis or not method_ok or ENUM_BREAKERS):
         # the property is no longer shown: widen the search before saying so
         found = False
@@ -1466,11 +1695,15 @@ def main():
     lib_cls = count(c[0].split(":")[0] for c in lcases)
     distinct = len({t for t in ltexts}) + len({json.dumps(case_input(c), sort_keys=True, default=str) for c in ccases})
     res.coverage.update({
-        "evaluations": len(lcases) + len(ccases),
+        "evaluations": len(lcases) + len(ccases) + sq["loads"],
         "distinct_nontrivial": distinct,
         "rule": "library layer: cmd.LoadGleeceConfig on every containment-closed subset of the 14 optional parts (thorough: all; "
                 "quick: each alone, all-but-one, 250 random), every single-field corruption class x values x {maximal, minimal} "
-                "base, random double corruptions, cross-field malformed schemes; CLI layer: the real binary in scratch projects "
+                "base, random double corruptions, cross-field malformed schemes; history layer: sequences of 2-4 configurations loaded in "
+                "ONE process each (per optional part: [all parts explicit, that part omitted] and [explicit, explicit with other values "
+                "and list lengths, omitted]; glob lists of every length before a minimal / empty-list / shorter-list document; a refused "
+                "document in between; random orders, repeated documents), every returned value judged against ITS document right after "
+                "the call and after the rest of the history (ConfigLoad.prop_C20_loads), the last one also against a fresh process; CLI layer: the real binary in scratch projects "
                 "(5 engines x 2 versions, permission strings x fresh/existing output x umask, the three commands, glob sets with "
                 "decoy controllers, glob LISTS whose expressions split one directory between them (fixed shapes + generated, both "
                 "orders; the per-expression matches are the oracle, the union over the list is the model's), output paths, "
@@ -1483,6 +1716,9 @@ def main():
             "library_cases": len(lcases), "library_classes": lib_cls,
             "library_verdicts": count(v[0] for v in lverdicts),
             "library_declared_violations": lbad[0], "library_cross_field_malformed": lbad[1],
+            "histories": len(shists), "history_loads": sq["loads"], "history_loads_accepted": sq["valid"],
+            "history_lengths": count(len(h) for h in shists),
+            "history_last_classes": count(h[-1][0].split(":")[1] for h in shists),
             "cli_cases": len(ccases), "cli_classes": cls_count, "cli_status": status_count,
             "cli_declared_violations": cbad[0], "cli_cross_field_malformed": cbad[1],
             "cli_projects": count(c["project"] for c in ccases), "cli_commands": count(c["command"] for c in ccases),
@@ -1490,9 +1726,10 @@ def main():
             "cli_glob_lists_splitting_a_directory": sum(1 for c in ccases if splits_a_directory(templates["good"], effective_globs(c["cfg"]))),
             "enum_case_variants": {cls: len(vals) for cls, _, _, vals in ENUM_CASE},
         },
-        "traces_validated_against_impl": len(lcases) - len(ldis) + len(ccases) - len(cdis),
-        "disagreements": {"library": len(ldis), "cli": len(cdis)},
-        "property_oracle_failures": {"library": len(lpf), "cli": len(cpf)},
+        "traces_validated_against_impl": len(lcases) - len(ldis) + len(ccases) - len(cdis) + sq["loads"] - len(sq["disagree"]),
+        "disagreements": {"library": len(ldis), "cli": len(cdis), "history": len(sq["disagree"])},
+        "property_oracle_failures": {"library": len(lpf), "cli": len(cpf), "history": len(sq["propfail"]),
+                                     "history_last_differs_from_fresh_process": len(sq["differs"])},
         "known_finding_hits": known_hits,
         "reflection_obligation": {"name": "schema_at_least declared_schema Gen_tags.config_schema", "holds": obligation,
                                   "uncovered_declared_entries": uncovered, "translated_entries": n_actual,
